@@ -7,7 +7,7 @@ from rules import PL
 from props.C04 import call_results, agg_field_operands
 
 META = {
-    "explanation_r6": "Also (round 6): a process found by refresh (lookup Ok) is always recorded through on_start before the service's iteration ends (C19.refresh.found).",
+    "explanation_r6": "Also (round 6): a process found by refresh (lookup Ok) is always recorded through on_start before the service's iteration ends (C19.refresh.found); on_start refreshes no recorded field depending on that field's own previous value (C19.on_start.fresh).",
     "explanation_more": "Also (round 5): refresh looks the process up whatever status is recorded except Removed (C19.refresh.lookup); 'a removed service stays removed' is decided from the head of the per-service iteration.",
     "explanation_more2": 'Also (round 4): after the new definition was installed every outcome of upgrade records the new version (C19.upgrade.version.always).',
     "explanation": "Decides: (1) NodeServiceData.status and .pid are assigned only in NodeService::{on_start,on_stop,on_remove}; NodeServiceData "
@@ -187,6 +187,41 @@ def run(R):
         if not ok:
             R.viol("C19.on_start", "running-last", "NodeService::on_start must set status = Running (and the given pid) as its last effect, after every fallible RPC", ost, ost.lines[0])
         R.inst("C19.on_start", "K5 must-follow", "on_start: nothing fallible follows `status = Running`; pid written = pid argument", len(w), ok)
+        # what on_start records is what the live process reports, never what happened to be on record: no write of a service_data field is
+        # decided by the previous value of that same field (seed C19-r7: `if node_port.is_none() { node_port = <port the node listens on> }` —
+        # a service restarted on another port keeps the old one on record; the port check then refuses a free port and admits a taken one)
+        from flow import backward
+        idom = g.dominators()
+        nfw, okfw = 0, True
+        for b in ost.blocks:
+            if b["cleanup"]:
+                continue
+            for s_ in b["stmts"]:
+                if len(s_["d"]) < 2 or not str(s_["d"][-1]).startswith(".") or ".service_data" not in s_["d"]:
+                    continue
+                fld = s_["d"][-1][1:]
+                nfw += 1
+                olds = {d for d, r, p_ in field_reads(ost, fld) if p_[-1] == "." + fld}
+                olds = Taint(ost, through="all").closure(olds) if olds else set()
+                d_ = b["id"]
+                while d_ != 0 and olds:
+                    d_ = idom[d_]
+                    t_ = g.term(d_)
+                    if t_["k"] != "switch":
+                        continue
+                    sides = [x for x, _ in g.succ[d_]]
+                    if all(b["id"] in g.reach((x,)) for x in sides):
+                        continue        # not a deciding branch for this write
+                    l_ = op_local(t_["on"])
+                    if l_ is not None and (backward(ost, l_) & olds or l_ in olds):
+                        okfw = False
+                        R.viol("C19.on_start.fresh", "stale-guard:%s" % fld, "NodeService::on_start records `%s` only depending on the value of `%s` already on record: what the live "
+                               "process reports does not replace a stale entry" % (fld, fld), ost, t_.get("l") or ost.lines[0])
+                        break
+        if nfw < 4:
+            okfw = False
+            R.viol("C19.on_start.fresh", "instance-floor", "only %d writes of service_data fields found in on_start (floor 4)" % nfw, ost, ost.lines[0])
+        R.inst("C19.on_start.fresh", "K4 gate (forbidden guard)", "on_start: no recorded field is refreshed depending on its own previous value", nfw, okfw)
     osp = R.body("C19.on_stop", NS + "on_stop::{closure#0}")
     if osp is not None:
         prep(osp)
